@@ -127,6 +127,30 @@ func TUnits(f Fmt) []Unit {
 	}
 }
 
+// SelfTree is a recursive type with a hand-written Selfer, written as the Selfer documentation suggests: it
+// hands its children back to the Encoder / Decoder, so Decode is RE-ENTERED (mustDecode -> decode) at every level.
+type SelfTree struct{ Kids []*SelfTree }
+
+func (x *SelfTree) CodecEncodeSelf(e *codec.Encoder) {
+	kids := x.Kids
+	if kids == nil {
+		kids = []*SelfTree{}
+	}
+	e.MustEncode(kids)
+}
+func (x *SelfTree) CodecDecodeSelf(d *codec.Decoder) { d.MustDecode(&x.Kids) }
+
+// SelfTreeE re-enters through Decode (the error-returning entry) and passes the error on as a panic,
+// which is what the Selfer contract asks for.
+type SelfTreeE struct{ Kids []*SelfTreeE }
+
+func (x *SelfTreeE) CodecEncodeSelf(e *codec.Encoder) { e.MustEncode(x.Kids) }
+func (x *SelfTreeE) CodecDecodeSelf(d *codec.Decoder) {
+	if err := d.Decode(&x.Kids); err != nil {
+		panic(err)
+	}
+}
+
 type SkipDst struct{ A int }
 type RawField struct {
 	A int
@@ -151,8 +175,10 @@ var Paths = []Path{
 	{Name: "slices", Base: 1, Typed: true},
 	{Name: "mapsi", Base: 1},
 	{Name: "slicei", Base: 1},
-	{Name: "ext-iface"},         // cbor: a tag bound to an InterfaceExt around every level
-	{Name: "ext-self", Base: 1}, // msgpack/simple/binc: SelfExt payload inside SelfExt payload
+	{Name: "selfer-reentry", Base: 1, Typed: true},   // a recursive Selfer whose CodecDecodeSelf calls d.MustDecode for its children
+	{Name: "selfer-reentry-e", Base: 1, Typed: true}, // the same through d.Decode
+	{Name: "ext-iface"},                              // cbor: a tag bound to an InterfaceExt around every level
+	{Name: "ext-self", Base: 1},                      // msgpack/simple/binc: SelfExt payload inside SelfExt payload
 }
 
 func PathByName(n string) Path {
@@ -198,6 +224,10 @@ func (p Path) Dest(o Opts) interface{} {
 		return new(T)
 	case "slices":
 		return reflect.New(NestedSliceType(o.EffMaxDepth() + 2)).Interface()
+	case "selfer-reentry":
+		return new(SelfTree)
+	case "selfer-reentry-e":
+		return new(SelfTreeE)
 	case "mapsi":
 		return new(map[string]interface{})
 	case "slicei":
@@ -211,7 +241,7 @@ func (p Path) UnitsFor(f Fmt, o Opts) []Unit {
 	switch p.Name {
 	case "T":
 		return TUnits(f)
-	case "slices":
+	case "slices", "selfer-reentry", "selfer-reentry-e":
 		us := NakedUnits(f, o)
 		var out []Unit
 		for _, u := range us {
@@ -247,8 +277,8 @@ func (p Path) Build(f Fmt, o Opts, pattern []Unit, count int) (in []byte, eff in
 		return BuildSelfExt(f, count), 2*count + 1
 	}
 	core := One(f)
-	if p.Name == "slices" {
-		core = EmptyArr(f)
+	if p.Name == "slices" || p.Name == "selfer-reentry" || p.Name == "selfer-reentry-e" {
+		core = EmptyArr(f) // the innermost list (a leaf of the tree): one more array level
 	}
 	var pre, wsuf []byte
 	switch p.Name {
